@@ -211,6 +211,7 @@ func (vm *Thread) callBytecodePromise(promise *Promise) {
 
 	baseStack := &generator.stack[0]
 	stackLen := len(generator.stack)
+	vm.reserveValueStack(stackLen)
 	for i := range stackLen {
 		*vm.spAdd(i) = *vm.stackAdd(baseStack, i)
 	}
@@ -242,6 +243,7 @@ func (vm *Thread) CallGeneratorNext(generator *Generator) (value.Value, value.Va
 
 	baseStack := &generator.stack[0]
 	stackLen := len(generator.stack)
+	vm.reserveValueStack(stackLen)
 	for i := range stackLen {
 		*vm.spAdd(i) = *vm.stackAdd(baseStack, i)
 	}
@@ -360,6 +362,7 @@ func (vm *Thread) CallBytecodeClosure(closure *BytecodeClosure, args ...value.Va
 	for _, arg := range args {
 		vm.push(arg)
 	}
+	vm.reserveValueStack(0)
 	vm.run()
 	if vm.state == errorState {
 		vm.restoreLastFrame()
@@ -420,6 +423,7 @@ func (vm *Thread) CallMethod(method value.Method, args ...value.Value) (value.Va
 		for _, arg := range args {
 			vm.push(arg)
 		}
+		vm.reserveValueStack(0)
 		vm.run()
 		if vm.state == errorState {
 			vm.restoreLastFrame()
@@ -448,6 +452,7 @@ func (vm *Thread) callMethodOnStack(method value.Method, args int) value.Value {
 		vm.fp = vm.spSubtractRaw(uintptr(args) + 1)
 		vm.localCount = args + 1
 		vm.ipSet(&m.Instructions[0])
+		vm.reserveValueStack(0)
 	case *NativeMethod:
 		argsPointer := vm.spAdd(-args - 1)
 		result, err := m.Function(vm, unsafe.Slice(argsPointer, args+1))
@@ -2161,6 +2166,7 @@ func (vm *Thread) callBytecodeClosure(closure *BytecodeClosure, callInfo *CallSi
 	vm.fp = vm.spSubtractRaw(uintptr(function.parameterCount) + 1)
 	vm.ipSet(&function.Instructions[0])
 	vm.upvalues = closure.Upvalues
+	vm.reserveValueStack(0)
 
 	return value.Undefined
 }
@@ -2270,6 +2276,14 @@ func (vm *Thread) callBytecodeFunction(method *BytecodeFunction, argCount int) {
 	vm.ipSet(&method.Instructions[0])
 
 	if float64(vm.spOffset()) > 0.7*float64(len(vm.stack)) {
+		vm.growValueStack()
+	}
+}
+
+// Grow the value stack until `n` more values fit below the 70% mark.
+// Called when a new frame gets created.
+func (vm *Thread) reserveValueStack(n int) {
+	for float64(vm.spOffset()+n) > 0.7*float64(len(vm.stack)) {
 		vm.growValueStack()
 	}
 }
@@ -2483,6 +2497,7 @@ func (vm *Thread) executeNamespaceBody(namespace value.Value, body *BytecodeFunc
 	vm.localCount = 1
 	// set namespace as `self`
 	vm.push(namespace)
+	vm.reserveValueStack(0)
 }
 
 // set up the vm to execute a bytecode function
@@ -2494,6 +2509,7 @@ func (vm *Thread) executeFunc(fn *BytecodeFunction) {
 	vm.ipSet(&fn.Instructions[0])
 	vm.localCount = 1
 	vm.push(value.Ref(value.GlobalObject))
+	vm.reserveValueStack(0)
 }
 
 // Set a local variable or value.
